@@ -109,6 +109,47 @@ def main():
         both('binary_search', enodes.g['binary_search'], nn.binary_search,
              [n], [n])
 
+    # the abstract work list (contracts/worklist.py) against Python lists on
+    # concrete contents: append / extend / reversed / pop / popleft / truth
+    try:
+        import collections
+        sys.path.insert(0, os.path.dirname(os.path.dirname(
+            os.path.abspath(__file__))))
+        from contracts import worklist as wl
+        rnd = random.Random(7)
+        p = sym.Path([])
+        sym.set_cur(p)
+        for trial in range(60):
+            a = wl.AbsList(eng, [])
+            b = collections.deque()
+            for step in range(25):
+                op = rnd.choice(['append', 'extend', 'extendrev', 'pop',
+                                 'popleft', 'truth'])
+                if op == 'append':
+                    x = rnd.randrange(100)
+                    a.append(x)
+                    b.append(x)
+                elif op == 'extend':
+                    xs = [rnd.randrange(100) for _ in range(rnd.randrange(4))]
+                    a.extend(xs)
+                    b.extend(xs)
+                elif op == 'extendrev':
+                    xs = [rnd.randrange(100) for _ in range(rnd.randrange(4))]
+                    a.extend(wl.RevView(list(xs)))
+                    b.extend(reversed(xs))
+                elif op == 'truth':
+                    ncases += 1
+                    if bool(a.nonempty()) != bool(b):
+                        failures.append(('AbsList truth', list(b)))
+                elif b:
+                    ncases += 1
+                    got = a.pop() if op == 'pop' else a.popleft()
+                    want = b.pop() if op == 'pop' else b.popleft()
+                    if got != want:
+                        failures.append(('AbsList ' + op, got, want))
+    finally:
+        sym.set_cur(None)
+
     print(f'selfcheck: {ncases} concrete cross-checks, '
           f'{len(failures)} disagreements')
     for f in failures[:10]:
